@@ -23,7 +23,7 @@ RULE = ("seeded structured unitaries of size 2-10 (Haar, identity, -identity, pe
         "x seeds; distinct = (matrix family, size, error-model shape); non-trivial = every case (full post-condition)")
 MANDATORY = ["family:haar", "family:identity", "family:permutation", "family:phased_permutation", "family:block",
              "family:near_permutation", "family:dft", "family:orthogonal", "heralded_circuit", "theta_pi_branch",
-             "theta_zero_branch", "noisy_error_model", "seed_reproducibility", "phase_near_2pi", "seed_zero_noisy"]
+             "theta_zero_branch", "noisy_error_model", "seed_reproducibility", "phase_near_2pi", "seed_zero_noisy", "reck_object_reused"]
 DECIDING = ["mon.reck_postconditions", "mon.dist_value_checks"]
 BUDGET = {"quick": 20, "thorough": 300}
 ASSUMPTIONS = ["default error model: |U_mapped - U| <= 1e-8 x n entry-wise", "declared bounds of Gaussian = [min_value, "
@@ -244,6 +244,7 @@ def run(ctx):
     install(lw)
     rng = ctx.rng
     itf = lw.interferometers
+    shared_reck = itf.Reck()
     i = 0
     while not ctx.out_of_time():
         fam = FAMILIES[i % len(FAMILIES)] if i < 3 * len(FAMILIES) else str(rng.choice(FAMILIES))
@@ -271,8 +272,23 @@ def run(ctx):
         ctx.bucket("family:" + ("block" if "block" in fam else fam))
         t_pi, t_0 = circmon.STATS["reck_theta_pi"], circmon.STATS["reck_theta_zero"]
         try:
-            reck = itf.Reck(em) if em is not None else itf.Reck()
+            if not noisy and rng.random() < 0.5:
+                reck = shared_reck           # a long-lived default Reck object reused across circuits
+                ctx.bucket("reck_object_reused")
+            else:
+                reck = itf.Reck(em) if em is not None else itf.Reck()
             res = reck.map(circ, seed=seed)
+            if noisy and rng.random() < 0.3:
+                # the same noisy Reck object mapping a second circuit, then the first one again with the same seed
+                other = lw.Unitary(make_unitary(rng, "haar", int(rng.integers(2, 6))))
+                reck.map(other, seed=pick_seed(rng))
+                ctx.bucket("reck_object_reused")
+                if seed is not None:
+                    res3 = reck.map(circ, seed=seed)
+                    if circmon.spec_digest(res3._get_circuit_spec()) != circmon.spec_digest(res._get_circuit_spec()):
+                        ctx.violation("the same Reck object, circuit and seed gave a different mapped circuit after it "
+                                      "had mapped another circuit in between", case=case, mechanism="reck_seed_history",
+                                      monitor="driver: seed reproducibility across reuse")
             if seed is not None:
                 ctx.bucket("seed_reproducibility")
                 if seed == 0 and noisy:
